@@ -65,6 +65,25 @@ fn report_failure(args: &Args, rep: &mut Report, ast: &OpeningHoursExpression, h
 
 pub fn run(args: &Args, rep: &mut Report) {
     let n = args.cases(480_000, 4_000_000);
+    // combination grid: pairs / triples of canonical rules over plain and wrapping ranges
+    for (i, text) in normalize_grid(args.thorough(), args.seed + 1).iter().enumerate() {
+        if (i as u64) % args.of.max(1) != args.worker {
+            continue;
+        }
+        let Ok(ast) = lib_parse(text) else { continue };
+        rep.evaluations += 1;
+        rep.begin(text);
+        let mut r = Rng::new(args.seed, 0x9c1d, i as u64);
+        match check(&ast, &HolSpec::None, &mut r) {
+            Ok(_) => rep.count("combination_grid_expressions"),
+            Err(msg) => {
+                report_failure(args, rep, &ast, &HolSpec::None, &msg);
+                if rep.full() {
+                    return;
+                }
+            }
+        }
+    }
     // exhaustive part: every value of every atomic field, alone and followed by a second rule
     for (i, ast) in atomic_asts().iter().enumerate() {
         if (i as u64) % args.of.max(1) != args.worker {
